@@ -13,7 +13,9 @@ CHECKS = {
         text='Merging discipline of the Pager construction: a changing weak merge discards the closed form of exactly the merged '
              'state and re-queues it; exact equality of candidates is tried before weak compatibility; weakly_compatible '
              'implements Pager\'s three conditions (all 16 valuations of the four look-ahead intersections enumerated) after '
-             'checking equal cores; garbage collection precedes graph construction.',
+             'checking equal cores, and a pair that passes hands over to the next pair of the row; all edge-recording sites of a '
+             'reprocessed state overwrite; garbage collection precedes graph construction and filters the state vector and '
+             'the edge vector by the same membership test.',
         note='Necessary conditions only: equivalence with canonical LR(1) on every input and "never more states than canonical" '
              'need an independent construction and are NOT decided. Trusted: ' + TB,
         technique='path-table extraction (exhaustive over the 4 intersection atoms), dominance and reachability over MIR',
@@ -34,8 +36,10 @@ CHECKS = {
         text='Driver-side clauses only: with recovery off an Error action yields exactly one ParseError (the state just looked '
              'up, the lexeme at the very input index used for the lookup, no repairs), no recoverer call and no value; the '
              'end-of-input lexeme is a faulty zero-length EOF lexeme at the end of the last real lexeme; action() is a pure '
-             'decode of the table cell.',
-        note='That the state the parser is in rejects exactly at the viable-prefix boundary is table correctness (C01) and is NOT decided. Trusted: ' + TB,
+             'decode of the table cell. Two necessary conditions of the table side: the LR(1) closure\'s work list is cleared '
+             'only for the entry just taken, every taken entry is cleared, an entry is scheduled exactly when Itemset::add '
+             'reports a change; and FIRST(Y) of a symbol behind the dot is merged together with a test of nullable(Y).',
+        note='That the state the parser is in rejects exactly at the viable-prefix boundary is table correctness (C01) and is NOT decided beyond those two conditions. Trusted: ' + TB,
         technique='symbolic path tables of the LR driver arms extracted from MIR, compared with the specification',
         ref='§4 C04'),
     'C05': dict(
@@ -51,8 +55,9 @@ CHECKS = {
         level='other',
         text='Post-processing order of repair sequences (strip trailing shifts, then de-duplicate, then sort) by dominance; the '
              'ranking comparator as a table; no construction of an EOF insertion; neighbour-generation table incl. never '
-             'insert after delete; positive token costs asserted before parsing; the node-merging relation (eq table, Hash '
-             'subset); the two phases of the search and the sweep\'s cost filter.',
+             'insert after delete; positive token costs asserted before parsing; the node-merging relation (eq table over the '
+             'fields themselves, Hash subset); the two phases of the search and the sweep\'s cost filter; every candidate is '
+             'test-parsed to the same end point; a forward move that consumed a lexeme is never discarded.',
         note='Minimality and completeness of the returned set need the exhaustive reference search and are NOT decided. Trusted: ' + TB,
         technique='path-table extraction of comparator/neighbour/eq tables and dominance ordering of pipeline stages in MIR',
         ref='§4 C06'),
@@ -81,7 +86,7 @@ CHECKS = {
         text='Rule selection: (longest, rule) replaced only under a STRICT comparison while rules are visited in ascending order '
              'and matched at the position\'s start offset; applicability table of a rule in a start state; tiling (offset '
              'advances by exactly the longest match and only if > 0, emitted lexeme = (token of the chosen rule, start, '
-             'longest), every error ends lexing); start-state stack operations per operation variant.',
+             'longest), every error ends lexing); start-state stack operations per operation variant, on every path.',
         note='What the regexes match and the id synchronisation sets are NOT decided. Trusted: regex crate; ' + TB,
         technique='symbolic cycle tables of the lexing loops extracted from MIR (strictness/orientation of comparisons, provenance of emitted values)',
         ref='§4 C09'),
@@ -102,7 +107,8 @@ CHECKS = {
              '(def-use chain of the argument contains no slicing/trimming callee), so spans index what the user wrote. '
              '(2) For each LexFlags field (read from the ADT) name agreement is checked along the whole plumbing: header '
              'key -> field, defaults merge, field -> RegexBuilder setter of the same name, CTLexerBuilder setter -> header key. '
-             '(3) No number that is a setting is narrowed with an `as` cast on its way into a flag (all integer casts enumerated).',
+             '(3) No number that is a setting is narrowed with an `as` cast on its way into a flag (all integer casts enumerated). '
+             '(4) The lex parser strips and tests blanks with its one white-space predicate only (no Unicode White_Space trim/is_whitespace).',
         note='Decides the span-offset clause and the "flags given are the ones in force" clause structurally. Does NOT decide '
              'that rule splitting and escape rewriting denote the right regular language. Trusted: ' + TB,
         technique='def-use provenance of parser inputs + name-agreement check over resolved field indices, callee names and constant strings in MIR',
@@ -116,7 +122,8 @@ CHECKS = {
              'regex literals analysed for minimum match width, recursion handled by greatest-fixpoint hypotheses); (2) no '
              'unwrap/expect consumes an input-dependent fallible producer; (3) no call-graph cycle (input-depth recursion); (4) a byte '
              'cursor stepped by a constant on a cycle that reads the text at it steps only past characters proven ASCII on that '
-             'path (literal match, range bound, is_ascii* or ASCII lookahead), so it stays on a character boundary.',
+             'path (literal match, range bound, is_ascii* or ASCII lookahead), so it stays on a character boundary; (5) every '
+             'unwrap of a peek S[k..].chars().next() is reached only with k < len(S) (linear bounds domain + 3 library postconditions).',
         note='Decides "never hangs in a scanner loop", "no panic from unwrapping an input-dependent failure" and "no unbounded '
              'recursion", plus the constant-step instance of the char-boundary clause; does NOT decide absence of slicing/index '
              'panics in general nor that every span lies on a char boundary. '
@@ -170,7 +177,8 @@ CHECKS = {
              'round-surviving state raises the flag, directly or through a test of its change result. Breaking either stops '
              'the iteration before the least fixed point, i.e. gives sets that are too small. Also: every loop summary flag of '
              'the analyses (all_done / cmplt / empty / only_reduces ...) moves only away from its initial value inside its loop; '
-             'and wherever FIRST(Y) of a production symbol is read as its contribution, nullable(Y) of the same Y is tested.',
+             'wherever FIRST(Y) of a production symbol is read as its contribution, nullable(Y) of the same Y is tested; and the '
+             'min/max cost accumulators keep the lower/higher candidate.',
         note='A necessary condition for exactness and termination-at-the-fixed-point. That the transfer functions are right beyond the '
              'FIRST/nullable pairing is NOT decided (the pairing rule found a real FOLLOW defect, fixed in /repo 2a78056); '
              'nor are reachability, sentence costs and minimal sentences. Trusted: ' + TB,
@@ -183,9 +191,11 @@ CHECKS = {
              'metadata reads succeed, output strictly newer than grammar with that operand orientation, output readable and '
              'containing the cache string computed by rebuild_cache); delete-before-regenerate by dominance; no failing exit '
              '(Err return, `?`, explicit panic) after the output path is claimed without removal of the output - directly or '
-             'through a drop guard that owns the path and is disarmed only immediately before Ok exits; lexer rewrite rule.',
+             'through a drop guard that owns the path and is disarmed only immediately before Ok exits; lexer rewrite rule; type '
+             'parameters whose names the generated code spells out are part of the cache key.',
         note='Necessary conditions for "ends in the state a clean build would". Equality with a clean build across arbitrary '
-             'file-system histories / clock granularity is NOT decided. Trusted: std::fs semantics; ' + TB,
+             'file-system histories / clock granularity is NOT decided. 3 known findings (settings that bypass the cache: the '
+             'inspect_rt callback that validates test_files, and the unstable in-memory grammar sources). Trusted: std::fs semantics; ' + TB,
         technique='field-read coverage over the call-graph cone, path-table extraction of the skip decision, dominance/reachability of failing exits vs. deletion points and drop-guard typestate in MIR',
         ref='§4 C18'),
     'C19': dict(
@@ -210,9 +220,11 @@ CHECKS = {
              'MIR and classified by operand provenance; every cast of the length of, or an enumerate index over, a vector '
              'still under construction must be covered by a "not big enough" guard on that same vector that lies after '
              'its last growth and on every way from the cast to a return. State-count guards of the pager, StateGraph::new '
-             'and StateTable::new and the checked lexer rule-id conversion are checked for existence and placement.',
+             'and StateTable::new and the checked lexer rule-id conversion are checked for existence and placement. The iteration '
+             'order of hash containers keyed by StorageT values (fixed hasher, but width-dependent hashes) must not reach an ordered result.',
         note='Necessary condition for "no width yields wrapped sizes/indices"; equality of results across accepted widths is '
-             'not decided as such. 7 operand origins are trusted with a stated reason (table in rules/c20.py). Trusted: ' + TB,
+             'not decided beyond these two conditions. 2 operand origins are trusted with a stated reason (table in rules/c20.py); 2 known '
+             'findings (state numbering and the reduce/reduce conflict list differ between widths). Trusted: ' + TB,
         technique='guard-before-narrowing dataflow over MIR (def-use provenance, dominance, reachability of growth after guard)',
         ref='§4 C20'),
 }
